@@ -27,9 +27,9 @@
   distinct), and `C14_new_vertex_position_full` (the position theorem without side hypothesis); in Props/C14c.lean: the
   vertices of all old darts — the two end points included — keep their dart sets, identifiers and coordinates.
 
-  NOT PROVED (validated on every case by the oracle of tools/props/c14.py)
-  * the `UndefinedEdge` error as an exact characterisation (needs totality of the vertex-id BFS on well-formed
-    maps); the direction "Ok ⇒ both end points defined" is part of `C14_ok_implies_guards`.
+  CONTINUED in Props/C14d.lean: the `UndefinedEdge` error as an exact characterisation (`C14_undefined_edge_iff(_single)`,
+  with the totality of the vertex-id BFS on well-formed maps from C03); the direction "Ok ⇒ both end points defined" is
+  part of `C14_ok_implies_guards` here.
   The freeness test is transactional since /repo cc2bcd4 (former finding D3 of C08): the kernels are plain
   closures over the transaction and C06/C08's theorems apply to them without a side condition.
 -/
